@@ -238,8 +238,18 @@ class SInt(object):
     def __rdivmod__(self, o):
         return (o // self, o % self)
     def __truediv__(self, o):
+        # float division of an integer by a power of two is exact when the integer is exactly
+        # representable (|n| < 2**53): kept as an exact quotient that can only be truncated
+        if isinstance(o, (int, float)) and not isinstance(o, bool) and o == int(o) and int(o) > 0 \
+                and int(o) & (int(o) - 1) == 0 and int(o) <= (1 << 20):
+            E = engine()
+            lim = 1 << 53
+            if E._check(z3.Or(self.t >= lim, self.t <= -lim)) != z3.unsat:
+                raise Unsupported('true division of a symbolic integer not known to be below 2**53')
+            return SQuot(self, int(o))
         raise Unsupported('true division on symbolic integer')
-    __rtruediv__ = __truediv__
+    def __rtruediv__(self, o):
+        raise Unsupported('true division by symbolic integer')
     def __pow__(self, o):
         if isinstance(o, int) and 0 <= o <= 4:
             r = 1
@@ -814,6 +824,27 @@ class SBuf(object):
     def _lt(self, o, strict_len):
         raise Unsupported('ordering of symbolic buffers')
     __lt__ = __gt__ = __le__ = __ge__ = lambda self, o: self._lt(o, 0)
+
+
+class SQuot(object):
+    """Exact quotient n / 2**k of a symbolic integer (result of a float division); only truncation,
+    floor and comparison with zero are supported."""
+
+    def __init__(self, num, den):
+        self.num, self.den = num, den
+
+    def __trunc__(self):
+        n, d = self.num, self.den
+        return If(n >= 0, n // d, -((-n) // d))
+
+    def __floor__(self):
+        return self.num // self.den
+
+    def __neg__(self):
+        return SQuot(-self.num, self.den)
+
+    def __repr__(self):
+        return 'SQuot(%r / %d)' % (self.num, self.den)
 
 
 class SRegion(object):
